@@ -60,10 +60,10 @@ CLAIMS["C03"] = dict(
 
 CLAIMS["C14"] = dict(
     category="proof",
-    text="len/size_hint, remove_mask and remove_move are extracted from the real source on every run (together with the BitBoard operators, to_square, popcnt, Square::new they call) and verified by Verus for move lists of ANY length against an abstract pending-count / slot view under the iterator invariant (loop invariants, no bound). next() and set_iterator_mask are decided by one-step contracts over arbitrary invariant states on the real NoDrop<ArrayVec> with at most 3 slots in Kani — a bounded stand-in, reported separately and not counted as proved. Two genuine defects found by these obligations were repaired (fix: commits, known_findings.txt).",
-    design_ref="DESIGN.md §6 C14",
-    note=TRUST + "Verus side: MoveList modelled as Vec with capacity constant (rule V6), count_ones spec assumed (same fact proved by Kani for popcnt), Square invariant (<64) as precondition; next/set_iterator_mask only bounded (<=3 slots); the composition 'masks partition the move set' is argued from the per-step contracts (count decreases by one, yielded move is the first pending one, permutation on set_iterator_mask), not mechanised as a trace lemma.",
-    technique="Verus loop-invariant proofs on mechanically extracted MoveGen methods (unbounded list length) + Kani one-step contracts on the real ArrayVec (bounded to 3 slots)",
+    text="All six iterator methods — next, len, size_hint, set_iterator_mask, remove_mask, remove_move — are extracted from the real source on every run (together with the BitBoard operators, to_square, popcnt, Square::new, ChessMove::new they call) and verified by Verus for move lists of ANY length against an abstract pending-count / slot view under the iterator invariant: next yields the first pending move, lowers the pending count by exactly one and re-establishes the invariant (None iff nothing pending); len/size_hint equal the pending count at every moment; set_iterator_mask yields a permutation of the slots (explicit bijection) satisfying the invariant; removals clear exactly the named destinations in every slot. Kani repeats the one-step contracts on the real NoDrop<ArrayVec> with at most 3 slots (bounded cross-check of the Vec model, reported separately). Two genuine defects found by these obligations were repaired (fix: commits).",
+    design_ref="DESIGN.md §0, §6 C14",
+    note=TRUST + "Verus side: MoveList modelled as Vec with capacity constant (rule V6), count_ones spec assumed (same fact proved by Kani for popcnt), Square invariant (<64) as precondition of remove_move; 'masks partition the move set / every move exactly once' follows from the per-step contracts by induction over the call sequence (count decreases by one per yielded move, yielded move is the first pending one, set_iterator_mask permutes) — the induction itself is stated, not mechanised.",
+    technique="Verus loop-invariant and step-lemma proofs on mechanically extracted MoveGen methods (unbounded list length) + Kani one-step contracts on the real ArrayVec (bounded to 3 slots) as cross-check",
 )
 
 CLAIMS["C13"] = dict(
@@ -112,10 +112,10 @@ CLAIMS["C05"] = dict(
 
 CLAIMS["C01"] = dict(
     category="proof",
-    text="Layered contracts on the real generator. Complete (all inputs): legal_king_move and legal_ep_move against a definitional flood-fill legality spec; pseudo_legals of all six piece types against the movement rules; the king producer (steps + castling per Art. 3.8.2) for every valid position; the dispatch enumerate_moves/new_legal on the number of checkers (Verus, extracted text, producers imported by contract); code-independent lemmas S2 that the pin/check-mask shortcut equals definitional legality for every piece type, and that legal steps keep positions valid. Bounded and labelled so: the piece loops of the pawn/knight/bishop/rook/queen producers on the real ArrayVec with at most 3 (pawns: 2) men of that type, via an arbitrary (source,destination) probe (present exactly once iff legal, promotion flag, no empty entry); Board::legal as membership in the generator (<=3 slots). Iterator expansion into moves is C14.",
-    design_ref="DESIGN.md §6 C01",
-    note=TRUST + "piece-loop producers are bounded in the number of men of the type (the loop body is per-piece independent; unbounded Verus proof of the loop is prototyped in DESIGN appendix B but not wired in); table accessors replaced by closed forms proved in C15/C16; S2 lemma proofs are cached by content hash in the quick tier and re-proved in thorough; legality is stated for valid positions (incl. the en-passant history clause).",
-    technique="Kani/CBMC contracts on legality leaves and producers against an independent rules-of-chess spec + Verus proof of the dispatch on extracted text + code-independent SAT lemmas relating the pin-aware shortcut to definitional legality",
+    text="Layered contracts on the real generator. Kani, all inputs: legal_king_move and legal_ep_move against a definitional flood-fill legality spec; pseudo_legals of all six piece types against the movement rules; the king producer (steps + castling per Art. 3.8.2) for every valid position. Verus, on text extracted from the source on every run, for ANY number of pieces: the piece loops of the generic producer (bishops, rooks, queens), of the knight override and of the pawn override incl. promotion flag and the en-passant entries (loop invariants: every source visited exactly once, ascending, entry iff non-empty destination set, set = rule & check mask / rule & king line, capacity never exceeded), and the dispatch enumerate_moves/new_legal on the number of checkers. Kani ties the per-piece destination formula to the rules spec on the unextracted code with the real ArrayVec (at most 3 men of the type, pawns 2 — bounded, listed separately). Code-independent lemmas S2: the pin/check-mask shortcut equals definitional legality for every piece type. Board::legal is membership in the generator (bounded, 3 slots); iterator expansion is C14.",
+    design_ref="DESIGN.md §0, §6 C01",
+    note=TRUST + "the link 'per-piece formula == rules spec' is checked by Kani with a bound on the number of men of the type (the Verus loop proof shows each entry depends only on its source square and loop-invariant values); Verus units import callee contracts (pseudo_legals, between, line, BitBoard::next, accessors) that are Kani obligations elsewhere; MoveList modelled as Vec with capacity constant (V6/V8); table accessors replaced by closed forms proved in C15/C16; S2 lemma proofs cached by content hash in the quick tier; legality is stated for valid positions (incl. the en-passant history clause).",
+    technique="Verus loop-invariant proofs on mechanically extracted producers and dispatch (unbounded in piece count) + Kani/CBMC contracts on legality leaves, king producer and per-piece formulas against an independent rules-of-chess spec + code-independent SAT lemmas for the pin-aware shortcut",
 )
 CLAIMS["C04"] = dict(
     category="proof",
